@@ -44,7 +44,7 @@ Verdict(ev) ==
                         ((ListDet(t, ev.env) /\ ListDet(t, RevEnv(ev.env)))
                             => Den(t, ev.env) = ev.rows),
          meta |-> want("meta") => \A n \in Nodes(t) : NodeOK(n, ev.env),
-         coh  |-> want("coh") => MarkerCoherent(t) /\ Conform(t) = t ]
+         coh  |-> want("coh") => MarkerCoherent(t) /\ (KindOf(Eng(t)) = "sql" => Conform(t) = t) ]
 
 Init == l = 1
 Next == /\ l <= Len(Trace)
